@@ -1123,6 +1123,15 @@ class MainTransformer(object):
                     m.doc = param.description
                     m.doc_position = param.position
 
+    def _vfunc_has_own_block(self, parent, vfunc):
+        if not parent.glib_type_struct:
+            return False
+        class_struct = self._transformer.lookup_typenode(parent.glib_type_struct)
+        if class_struct is None:
+            return False
+        prefix = self._get_annotation_name(class_struct)
+        return self._blocks.get('%s::%s' % (prefix, vfunc.name)) is not None
+
     def _pass_read_annotations2(self, node, chain):
         if isinstance(node, ast.Function):
             block = self._blocks.get(node.symbol)
@@ -1141,8 +1150,10 @@ class MainTransformer(object):
                         if vfunc.name == invoker_name:
                             matched = True
                             vfunc.invoker = node.name
-                            # Also merge in annotations
-                            self._apply_annotations_callable(vfunc, [parent], block)
+                            # Also merge in annotations, unless the vfunc
+                            # has a comment block of its own
+                            if not self._vfunc_has_own_block(parent, vfunc):
+                                self._apply_annotations_callable(vfunc, [parent], block)
                             break
                     if not matched:
                         message.warn_node(node,
@@ -1606,9 +1617,11 @@ method or constructor of some type."""
                         continue
                 vfunc.invoker = method.name
                 # Apply any annotations we have from the invoker to
-                # the vfunc
-                block = self._blocks.get(method.symbol)
-                self._apply_annotations_callable(vfunc, [], block)
+                # the vfunc, unless it has a comment block of its own
+                prefix = self._get_annotation_name(class_struct)
+                if self._blocks.get('%s::%s' % (prefix, vfunc.name)) is None:
+                    block = self._blocks.get(method.symbol)
+                    self._apply_annotations_callable(vfunc, [], block)
                 break
 
     def _pair_property_accessors(self, node):
